@@ -30,6 +30,7 @@ def run(eng, ctx):
         DEC.harmonic_counts(eng, ctx, "C03.D9b", m)
         DEC.payload_uses(eng, ctx, "C03.D10", m)
         DEC.public_attributes(eng, ctx, "C03.D11", m)
+    SH.constructor_admission(eng, ctx, "C15.D6")  # the decoder is run for every payload the constructor admits (shared)
     # derived MSM attributes (PRN / CELLPRN / CELLSIG) are decoded values too: the mask-scan schema is a shared obligation
     MSMMAPS.run(eng, ctx)
     TR.grammar(eng, ctx, "C10.D1")
